@@ -19,6 +19,7 @@ exercised by the correspondence, not yet a theorem (partial); hash-seed independ
 This file restates the theorems the property rests on (full statements; proofs are in PGProofs/).
 Generated once by harness/mkprops.py from harness/props_table.py + PGProperties/extra/C08.lean.in; committed as source.
 -/
+import PGProofs.DemePerm
 import PGProofs.VanLoan
 import PGProofs.RewardsThm
 import PGProofs.Labelled
@@ -28,6 +29,30 @@ set_option pp.fieldNotation.generalized false
 
 namespace PG.C08
 open PG
+
+/-- HEADLINE: on the BFS graphs the code builds, listing the demes in a different order (sample vector, time scales, migration matrix permuted consistently) gives the same moment for rewards transported by name -/
+theorem moments_perm : ∀ {D : ℕ} {K : Type} [inst : Field K] [inst_1 : LinearOrder K] [inst_2 : IsStrictOrderedRing K] (σ : Equiv.Perm (Fin D)) {m : Model} {cinit cinit' : Fin D → ℕ} {ts : ℕ → Fin D → ℚ} {mig : ℕ → Fin D → Fin D → ℚ} {r r' : ℕ → ℚ} {fuel fuel' : ℕ → ℕ} {G G' : ℕ → Graph}, (∀ (e : ℕ), bfs (transit m (mkEpoch (ts e) (mig e) (r e))) (encLC cinit) (fuel e) = some (G e)) → (∀ (e : ℕ), bfs (transit m (mkEpoch (DemePerm.permTs σ (ts e)) (DemePerm.permMig σ (mig e)) (r' e))) (encLC cinit') (fuel' e) = some (G' e)) → ∑ d, cinit' d = ∑ d, cinit d → ∀ (L : ExpLaw K) (n : ℕ) {k : ℕ} (rs rs' : Fin k → Reward), (∀ (a : Fin k) (c : Fin D → ℕ), Reward.eval n (encLC (DemePerm.permC σ c)) (rs' a) = Reward.eval n (encLC c) (rs a)) → ∀ (c0 : Fin D → ℕ), ∑ d, c0 d = ∑ d, cinit d → ∀ (fs : List (ℕ × K)), accumVal L (fun e ↦ Matrix.map (Assembly.codeMat G' e) fun q ↦ ↑q) (fun a j ↦ ↑(Reward.eval n (G' 0).visited[j] (rs' a))) (fun j ↦ ↑(List.getD (alphaVec (G' 0).visited (List.ofFn (DemePerm.permC σ c0)) 1 0) (↑j) 0)) fs = accumVal L (fun e ↦ Matrix.map (Assembly.codeMat G e) fun q ↦ ↑q) (fun a i ↦ ↑(Reward.eval n (G 0).visited[i] (rs a))) (fun i ↦ ↑(List.getD (alphaVec (G 0).visited (List.ofFn c0) 1 0) (↑i) 0)) fs := @PG.DemePerm.C08_moments_perm
+
+/-- same for the cdf -/
+theorem cdf_perm : ∀ {D : ℕ} {K : Type} [inst : Field K] [inst_1 : LinearOrder K] [inst_2 : IsStrictOrderedRing K] (σ : Equiv.Perm (Fin D)) {m : Model} {cinit cinit' : Fin D → ℕ} {ts : ℕ → Fin D → ℚ} {mig : ℕ → Fin D → Fin D → ℚ} {r r' : ℕ → ℚ} {fuel fuel' : ℕ → ℕ} {G G' : ℕ → Graph}, (∀ (e : ℕ), bfs (transit m (mkEpoch (ts e) (mig e) (r e))) (encLC cinit) (fuel e) = some (G e)) → (∀ (e : ℕ), bfs (transit m (mkEpoch (DemePerm.permTs σ (ts e)) (DemePerm.permMig σ (mig e)) (r' e))) (encLC cinit') (fuel' e) = some (G' e)) → ∑ d, cinit' d = ∑ d, cinit d → ∀ (L : ExpLaw K) (n : ℕ) (c0 : Fin D → ℕ), ∑ d, c0 d = ∑ d, cinit d → ∀ (fs : List (ℕ × K)), cdfVal L (fun e ↦ Matrix.map (Assembly.codeMat G' e) fun q ↦ ↑q) (fun j ↦ ↑(List.getD (alphaVec (G' 0).visited (List.ofFn (DemePerm.permC σ c0)) 1 0) (↑j) 0)) (fun j ↦ ↑(Reward.eval n (G' 0).visited[j] Reward.treeHeight)) fs = cdfVal L (fun e ↦ Matrix.map (Assembly.codeMat G e) fun q ↦ ↑q) (fun i ↦ ↑(List.getD (alphaVec (G 0).visited (List.ofFn c0) 1 0) (↑i) 0)) (fun i ↦ ↑(Reward.eval n (G 0).visited[i] Reward.treeHeight)) fs := @PG.DemePerm.C08_cdf_perm
+
+/-- per-deme rewards addressed by the permuted axis index give the same moments -/
+theorem deme_marginals_perm : ∀ {D : ℕ} {K : Type} [inst : Field K] [inst_1 : LinearOrder K] [inst_2 : IsStrictOrderedRing K] (σ : Equiv.Perm (Fin D)) {m : Model} {cinit cinit' : Fin D → ℕ} {ts : ℕ → Fin D → ℚ} {mig : ℕ → Fin D → Fin D → ℚ} {r r' : ℕ → ℚ} {fuel fuel' : ℕ → ℕ} {G G' : ℕ → Graph}, (∀ (e : ℕ), bfs (transit m (mkEpoch (ts e) (mig e) (r e))) (encLC cinit) (fuel e) = some (G e)) → (∀ (e : ℕ), bfs (transit m (mkEpoch (DemePerm.permTs σ (ts e)) (DemePerm.permMig σ (mig e)) (r' e))) (encLC cinit') (fuel' e) = some (G' e)) → ∑ d, cinit' d = ∑ d, cinit d → ∀ (L : ExpLaw K) (n : ℕ) {k : ℕ} (q : Fin k → Fin D) (c0 : Fin D → ℕ), ∑ d, c0 d = ∑ d, cinit d → ∀ (fs : List (ℕ × K)), accumVal L (fun e ↦ Matrix.map (Assembly.codeMat G' e) fun q ↦ ↑q) (fun a j ↦ ↑(Reward.eval n (G' 0).visited[j] (Reward.deme ↑(σ (q a))))) (fun j ↦ ↑(List.getD (alphaVec (G' 0).visited (List.ofFn (DemePerm.permC σ c0)) 1 0) (↑j) 0)) fs = accumVal L (fun e ↦ Matrix.map (Assembly.codeMat G e) fun q ↦ ↑q) (fun a i ↦ ↑(Reward.eval n (G 0).visited[i] (Reward.deme ↑(q a)))) (fun i ↦ ↑(List.getD (alphaVec (G 0).visited (List.ofFn c0) 1 0) (↑i) 0)) fs := @PG.DemePerm.C08_moments_deme
+
+/-- the lineage-counting generator commutes with relabelling of demes -/
+theorem generator_equivariant : ∀ {D : ℕ} {K : Type u_1} [inst : Field K] (σ : Equiv.Perm (Fin D)) (lam : ℕ → ℕ → K) (ts : Fin D → K) (mig : Fin D → Fin D → K) (g : (Fin D → ℕ) → K) (c : Fin D → ℕ), QCs (linRate lam ts mig) linRes (fun c' ↦ g (DemePerm.permC σ c')) c = QCs (linRate lam (DemePerm.permTs σ ts) (DemePerm.permMig σ mig)) linRes g (DemePerm.permC σ c) := @PG.DemePerm.lineage_equivariant
+
+/-- the block-counting generator commutes with relabelling of demes -/
+theorem generator_equivariant_block : ∀ {D n : ℕ} [inst : NeZero n] {K : Type u_1} [inst_1 : Field K] (σ : Equiv.Perm (Fin D)) (lam : ℕ → ℕ → K) (ts : Fin D → K) (mig : Fin D → Fin D → K) (g : (Fin D × Fin n → ℕ) → K) (c : Fin D × Fin n → ℕ), QCs (blkRate lam ts mig) blkRes (fun c' ↦ g (DemePerm.permB σ c')) c = QCs (blkRate lam (DemePerm.permTs σ ts) (DemePerm.permMig σ mig)) blkRes g (DemePerm.permB σ c) := @PG.DemePerm.block_equivariant
+
+/-- the code model `transit` commutes with relabelling of demes -/
+theorem transit_equivariant : ∀ {D : ℕ} (σ : Equiv.Perm (Fin D)) (m : Model) (ts : Fin D → ℚ) (mig : Fin D → Fin D → ℚ) (r : ℚ) (c : Fin D → ℕ) (g g' : State → ℚ), (∀ (c' : Fin D → ℕ), g' (encLC (DemePerm.permC σ c')) = g (encLC c')) → genOf (transit m (mkEpoch (DemePerm.permTs σ ts) (DemePerm.permMig σ mig) r) (encLC (DemePerm.permC σ c))) g' (encLC (DemePerm.permC σ c)) = genOf (transit m (mkEpoch ts mig r) (encLC c)) g (encLC c) := @PG.DemePerm.transit_lineage_equivariant
+
+/-- SFS rewards (sums over demes) are invariant -/
+theorem sfs_perm : ∀ {K : Type} [inst : Field K] [inst_1 : LinearOrder K] [inst_2 : IsStrictOrderedRing K] {ι : Type} [inst_3 : Fintype ι] [inst_4 : DecidableEq ι] {ι' : Type} [inst_5 : Fintype ι'] [inst_6 : DecidableEq ι'] {k : ℕ} (L : ExpLaw K) {D n : ℕ} [inst_7 : NeZero n] (σ : Equiv.Perm (Fin D)) (lam : ℕ → ℕ → K) (ts : ℕ → Fin D → K) (mig : ℕ → Fin D → Fin D → K) (dec : ι → Fin D × Fin n → ℕ) (dec' : ι' → Fin D × Fin n → ℕ) (S : ℕ → Matrix ι ι K) (S' : ℕ → Matrix ι' ι' K), Function.Injective dec' → (∀ (e : ℕ) (f : (Fin D × Fin n → ℕ) → K) (i : ι), ∑ j, S e i j * f (dec j) = QCs (blkRate lam (ts e) (mig e)) blkRes f (dec i)) → (∀ (e : ℕ) (f : (Fin D × Fin n → ℕ) → K) (i : ι'), ∑ j, S' e i j * f (dec' j) = QCs (blkRate lam (DemePerm.permTs σ (ts e)) (DemePerm.permMig σ (mig e))) blkRes f (dec' i)) → ∀ (p : ι → ι'), (∀ (i : ι), dec' (p i) = DemePerm.permB σ (dec i)) → ∀ (hb : Fin k → (Fin n → ℕ) → K) (α : ι → K) (fs : List (ℕ × K)), accumVal L S' (fun a j ↦ hb a fun i ↦ ∑ d, dec' j (d, i)) (Matrix.vecMul α (Marginal.projMat p)) fs = accumVal L S (fun a x ↦ hb a fun i ↦ ∑ d, dec x (d, i)) α fs := @PG.DemePerm.demePerm_moments_sfs
+
+/-- pre-fix DemeReward: looking the name up in the sorted list while the axis follows the sample dict returns the other deme -/
+theorem sorted_name_lookup_defect : Reward.eval 4 DemePerm.sDefect (Reward.deme (DemePerm.axisOf 'b')) = 3 / 4 ∧ Reward.eval 4 DemePerm.sDefect (Reward.deme (DemePerm.sortedIdxOf 'b')) = 1 / 4 ∧ Reward.eval 4 DemePerm.sDefect (Reward.deme (DemePerm.sortedIdxOf 'b')) = Reward.eval 4 DemePerm.sDefect (Reward.deme (DemePerm.axisOf 'a')) ∧ Reward.eval 4 DemePerm.sDefect (Reward.deme (DemePerm.sortedIdxOf 'b')) ≠ Reward.eval 4 DemePerm.sDefect (Reward.deme (DemePerm.axisOf 'b')) := @PG.DemePerm.defect_counterexample
 
 /-- moments are invariant under a bijective relabelling of states -/
 theorem relabel_moments : ∀ {K : Type} [inst : Field K] [inst_1 : LinearOrder K] [inst_2 : IsStrictOrderedRing K] {ι : Type} [inst_3 : Fintype ι] [inst_4 : DecidableEq ι] {ι' : Type} [inst_5 : Fintype ι'] [inst_6 : DecidableEq ι'] {k : ℕ} (L : ExpLaw K) (σ : ι ≃ ι') (S : ℕ → Matrix ι ι K) (R : Fin k → ι → K) (α : ι → K) (fs : List (ℕ × K)), accumVal L (fun e ↦ (Matrix.reindex σ σ) (S e)) (fun a x ↦ R a ((Equiv.symm σ) x)) (fun x ↦ α ((Equiv.symm σ) x)) fs = accumVal L S R α fs := @PG.perm_accum
@@ -46,6 +71,14 @@ theorem deme_rewards_sum_one : ∀ (n : ℕ) (s : State) (D : ℕ), 0 < State.to
 
 end PG.C08
 
+#print axioms PG.C08.moments_perm
+#print axioms PG.C08.cdf_perm
+#print axioms PG.C08.deme_marginals_perm
+#print axioms PG.C08.generator_equivariant
+#print axioms PG.C08.generator_equivariant_block
+#print axioms PG.C08.transit_equivariant
+#print axioms PG.C08.sfs_perm
+#print axioms PG.C08.sorted_name_lookup_defect
 #print axioms PG.C08.relabel_moments
 #print axioms PG.C08.relabel_cdf
 #print axioms PG.C08.exp_reindex
